@@ -329,4 +329,697 @@ theorem Built.leafVarsOk {ts : List DTree} {d : DTree} (h : Built ts d)
     exact ⟨ihl (fun t ht => hts t (List.mem_append_left _ ht)),
       ihr (fun t ht => hts t (List.mem_append_right _ ht))⟩
 
+/-! ### `elimStep`, `components` -/
+
+theorem allLeaves_append (a b : List DTree) : allLeaves (a ++ b) = allLeaves a ++ allLeaves b := by
+  simp [allLeaves]
+
+theorem allLeaves_filter_perm (p : DTree → Bool) (ts : List DTree) :
+    (allLeaves (ts.filter fun d => !p d) ++ allLeaves (ts.filter p)).Perm (allLeaves ts) := by
+  rw [← allLeaves_append]
+  refine List.Perm.flatMap_right _ ?_
+  exact List.perm_append_comm.trans (List.filter_append_perm p ts)
+
+/-- what one round of the elimination loop does -/
+theorem elimStep_cases (ts : List DTree) (o : Nat) :
+    (ts.filter (fun d => d.vars.contains o) = [] ∧
+      DTree.elimStep ts o = ts.filter fun d => !d.vars.contains o) ∨
+    (∃ nt, Built (ts.filter fun d => d.vars.contains o) nt ∧
+      DTree.elimStep ts o = (ts.filter fun d => !d.vars.contains o) ++ [DTree.initVars nt]) := by
+  cases h : DTree.balanced (ts.filter fun d => d.vars.contains o) with
+  | none => exact Or.inl ⟨balanced_none h, by simp only [DTree.elimStep, h]⟩
+  | some nt => exact Or.inr ⟨nt, balanced_some h, by simp only [DTree.elimStep, h]⟩
+
+theorem elimStep_leaves (ts : List DTree) (o : Nat) :
+    (allLeaves (DTree.elimStep ts o)).Perm (allLeaves ts) := by
+  have hp := allLeaves_filter_perm (fun d => d.vars.contains o) ts
+  rcases elimStep_cases ts o with ⟨h1, h2⟩ | ⟨nt, h1, h2⟩
+  · rw [h2]
+    rw [h1] at hp
+    simpa [allLeaves] using hp
+  · rw [h2, allLeaves_append]
+    have : allLeaves [DTree.initVars nt] = allLeaves (ts.filter fun d => d.vars.contains o) := by
+      simp [allLeaves, h1.leaves]
+    rw [this]
+    exact hp
+
+theorem elimStep_varsOk {ts : List DTree} (o : Nat) (h : ∀ t ∈ ts, t.VarsOk) :
+    ∀ t ∈ DTree.elimStep ts o, t.VarsOk := by
+  rcases elimStep_cases ts o with ⟨_, h2⟩ | ⟨nt, h1, h2⟩
+  · rw [h2]
+    intro t ht
+    exact h t (List.mem_filter.1 ht).1
+  · rw [h2]
+    intro t ht
+    rcases List.mem_append.1 ht with ht | ht
+    · exact h t (List.mem_filter.1 ht).1
+    · have : t = DTree.initVars nt := by simpa using ht
+      subst this
+      exact initVars_varsOk
+        (h1.leafVarsOk fun t' ht' => (h t' (List.mem_filter.1 ht').1).leafVarsOk)
+
+theorem components_leaves (cs : Cnf) (ord : List Nat) :
+    (allLeaves (DTree.components cs ord)).Perm cs := by
+  unfold DTree.components
+  have h0 : (allLeaves (cs.map DTree.leafOf)).Perm cs := by
+    have : allLeaves (cs.map DTree.leafOf) = cs := by
+      induction cs with
+      | nil => rfl
+      | cons c cs ih => simp [allLeaves, List.flatMap_cons] at *; exact ih
+    rw [this]
+  generalize cs.map DTree.leafOf = ts at h0
+  induction ord generalizing ts with
+  | nil => exact h0
+  | cons o os ih => exact ih _ ((elimStep_leaves ts o).trans h0)
+
+theorem components_varsOk (cs : Cnf) (ord : List Nat) :
+    ∀ t ∈ DTree.components cs ord, t.VarsOk := by
+  unfold DTree.components
+  have h0 : ∀ t ∈ cs.map DTree.leafOf, t.VarsOk := by
+    intro t ht
+    obtain ⟨c, _, rfl⟩ := List.mem_map.1 ht
+    exact leafOf_varsOk c
+  generalize cs.map DTree.leafOf = ts at h0
+  induction ord generalizing ts with
+  | nil => exact h0
+  | cons o os ih => exact ih _ (elimStep_varsOk o h0)
+
+theorem components_nil (ord : List Nat) : DTree.components [] ord = [] := by
+  unfold DTree.components
+  simp only [List.map_nil]
+  induction ord with
+  | nil => rfl
+  | cons o os ih => simpa [DTree.elimStep, balanced_nil] using ih
+
+theorem components_ne_nil {cs : Cnf} (h : cs ≠ []) (ord : List Nat) :
+    DTree.components cs ord ≠ [] := by
+  intro h'
+  have := components_leaves cs ord
+  rw [h'] at this
+  exact h this.nil_eq.symm
+
+/-! ### `genCutset` -/
+
+@[simp] theorem genCutset_vars (anc : List Nat) (d : DTree) :
+    (DTree.genCutset anc d).vars = d.vars := by
+  cases d <;> rfl
+
+@[simp] theorem genCutset_leaves (anc : List Nat) (d : DTree) :
+    (DTree.genCutset anc d).leaves = d.leaves := by
+  induction d generalizing anc with
+  | leaf c cut vs => rfl
+  | node l r cut vs ihl ihr => simp [DTree.genCutset, DTree.leaves, ihl, ihr]
+
+theorem genCutset_varsOk {d : DTree} (anc : List Nat) (h : d.VarsOk) :
+    (DTree.genCutset anc d).VarsOk := by
+  induction d generalizing anc with
+  | leaf c cut vs => exact h
+  | node l r cut vs ihl ihr =>
+    obtain ⟨h1, h2, h3⟩ := h
+    simp only [DTree.genCutset, DTree.VarsOk, genCutset_vars]
+    exact ⟨h1, ihl _ h2, ihr _ h3⟩
+
+theorem genCutset_cutsOk (anc : List Nat) (d : DTree) :
+    (DTree.genCutset anc d).CutsOk anc := by
+  induction d generalizing anc with
+  | leaf c cut vs => simp [DTree.genCutset, DTree.CutsOk]
+  | node l r cut vs ihl ihr =>
+    simp [DTree.genCutset, DTree.CutsOk, ihl, ihr]
+
+/-! ## `fromCnf` -/
+
+/-- what `fromCnf` returns -/
+theorem fromCnf_some {cs : Cnf} {ord : List Nat} {d : DTree} (h : DTree.fromCnf cs ord = some d) :
+    ∃ res, Built (DTree.components cs ord) res ∧ d = DTree.genCutset [] (DTree.initVars res) := by
+  unfold DTree.fromCnf at h
+  cases hb : DTree.balanced (DTree.components cs ord) with
+  | none => simp [hb] at h
+  | some res =>
+    simp only [hb, Option.map_some, Option.some.injEq] at h
+    exact ⟨res, balanced_some hb, h.symm⟩
+
+/-- what `fromCnfOrig` returns -/
+theorem fromCnfOrig_some {cs : Cnf} {ord : List Nat} {d : DTree}
+    (h : DTree.fromCnfOrig cs ord = some d) :
+    ∃ res, Built (DTree.components cs ord) res ∧ d = DTree.genCutset [] res := by
+  unfold DTree.fromCnfOrig at h
+  cases hb : DTree.balanced (DTree.components cs ord) with
+  | none => simp [hb] at h
+  | some res =>
+    simp only [hb, Option.map_some, Option.some.injEq] at h
+    exact ⟨res, balanced_some hb, h.symm⟩
+
+theorem fromCnf_isSome {cs : Spec.Cnf} (h : cs ≠ []) (ord : List Nat) :
+    (DTree.fromCnf cs ord).isSome := by
+  obtain ⟨d, hd, _⟩ := balanced_built (components_ne_nil h ord)
+  simp [DTree.fromCnf, hd]
+
+theorem fromCnfOrig_isSome {cs : Spec.Cnf} (h : cs ≠ []) (ord : List Nat) :
+    (DTree.fromCnfOrig cs ord).isSome := by
+  obtain ⟨d, hd, _⟩ := balanced_built (components_ne_nil h ord)
+  simp [DTree.fromCnfOrig, hd]
+
+theorem fromCnf_none (ord : List Nat) : DTree.fromCnf [] ord = none := by
+  simp [DTree.fromCnf, components_nil, balanced_nil]
+
+theorem fromCnfOrig_none (ord : List Nat) : DTree.fromCnfOrig [] ord = none := by
+  simp [DTree.fromCnfOrig, components_nil, balanced_nil]
+
+theorem dtree_leaves {cs : Spec.Cnf} {ord : List Nat} {d : DTree}
+    (h : DTree.fromCnf cs ord = some d) : d.leaves.Perm cs := by
+  obtain ⟨res, hb, rfl⟩ := fromCnf_some h
+  rw [genCutset_leaves, initVars_leaves, hb.leaves]
+  exact components_leaves cs ord
+
+theorem dtree_leaves_orig {cs : Spec.Cnf} {ord : List Nat} {d : DTree}
+    (h : DTree.fromCnfOrig cs ord = some d) : d.leaves.Perm cs := by
+  obtain ⟨res, hb, rfl⟩ := fromCnfOrig_some h
+  rw [genCutset_leaves, hb.leaves]
+  exact components_leaves cs ord
+
+theorem dtree_vars {cs : Spec.Cnf} {ord : List Nat} {d : DTree}
+    (h : DTree.fromCnf cs ord = some d) : d.VarsOk := by
+  obtain ⟨res, hb, rfl⟩ := fromCnf_some h
+  exact genCutset_varsOk _ (initVars_varsOk
+    (hb.leafVarsOk fun t ht => (components_varsOk cs ord t ht).leafVarsOk))
+
+theorem dtree_vars_mem {d : DTree} (h : d.VarsOk) (x : Nat) :
+    x ∈ d.vars ↔ ∃ c ∈ d.leaves, ∃ l ∈ c, l.var = x := by
+  induction d with
+  | leaf c cut vs =>
+    have h' : vs = clauseVars c := h
+    subst h'
+    simp [DTree.vars, DTree.leaves, mem_clauseVars]
+  | node l r cut vs ihl ihr =>
+    obtain ⟨h1, h2, h3⟩ := h
+    subst h1
+    show x ∈ VarSet.union l.vars r.vars ↔ _
+    rw [VarSet.mem_union, ihl h2, ihr h3]
+    simp only [DTree.leaves, List.mem_append]
+    constructor
+    · rintro (⟨c, hc, hx⟩ | ⟨c, hc, hx⟩)
+      · exact ⟨c, Or.inl hc, hx⟩
+      · exact ⟨c, Or.inr hc, hx⟩
+    · rintro ⟨c, hc | hc, hx⟩
+      · exact Or.inl ⟨c, hc, hx⟩
+      · exact Or.inr ⟨c, hc, hx⟩
+
+theorem dtree_vars_sorted {d : DTree} (h : d.VarsOk) : VarSet.Sorted d.vars := by
+  cases d with
+  | leaf c cut vs =>
+    have h' : vs = clauseVars c := h
+    subst h'
+    exact sorted_clauseVars c
+  | node l r cut vs =>
+    obtain ⟨h1, h2, _⟩ := h
+    subst h1
+    exact VarSet.sorted_union (dtree_vars_sorted h2)
+
+theorem dtree_cutsets {cs : Spec.Cnf} {ord : List Nat} {d : DTree}
+    (h : DTree.fromCnf cs ord = some d) : d.CutsOk [] := by
+  obtain ⟨res, _, rfl⟩ := fromCnf_some h
+  exact genCutset_cutsOk _ _
+
+theorem dtree_cutsets_orig {cs : Spec.Cnf} {ord : List Nat} {d : DTree}
+    (h : DTree.fromCnfOrig cs ord = some d) : d.CutsOk [] := by
+  obtain ⟨res, _, rfl⟩ := fromCnfOrig_some h
+  exact genCutset_cutsOk _ _
+
+/-- the current Rust leaves the root's `vars` empty for a CNF with two components:
+(x1) ∧ (¬x2) with elimination order [2,0,1] — checked against the real library -/
+theorem dtree_vars_orig_wrong :
+    ∃ d, DTree.fromCnfOrig [[⟨1, true⟩], [⟨2, false⟩]] [2, 0, 1] = some d ∧ ¬ d.VarsOk := by
+  refine ⟨_, rfl, ?_⟩
+  intro h
+  have h1 := h.1
+  revert h1
+  decide
+
+/-! ## the vtree derived from a dtree -/
+
+/-- leaves of an optional vtree (`[]` for `none`) -/
+def optLeaves : Option VTree → List Nat
+  | none => []
+  | some t => t.leaves
+
+theorem rightLinearC_leaves (cut : List Nat) (sub : Option VTree) :
+    optLeaves (VTree.rightLinearC cut sub) = cut ++ optLeaves sub := by
+  induction cut with
+  | nil => rfl
+  | cons v vs ih =>
+    unfold VTree.rightLinearC
+    cases h : VTree.rightLinearC vs sub with
+    | none =>
+      rw [h] at ih
+      have : vs ++ optLeaves sub = [] := ih.symm
+      show [v] = v :: (vs ++ optLeaves sub)
+      rw [this]
+    | some s =>
+      rw [h] at ih
+      simp only [optLeaves, VTree.leaves] at ih ⊢
+      rw [ih]; rfl
+
+theorem fromDtree_node_leaves (l r : DTree) (cut vs : List Nat) :
+    optLeaves (VTree.fromDtree (.node l r cut vs)) =
+      cut ++ (optLeaves (VTree.fromDtree l) ++ optLeaves (VTree.fromDtree r)) := by
+  have e : VTree.fromDtree (.node l r cut vs) = VTree.rightLinearC cut
+      (match VTree.fromDtree l, VTree.fromDtree r with
+        | none, none => none
+        | some l, none => some l
+        | none, some r => some r
+        | some l, some r => some (VTree.node l r)) := by
+    rw [VTree.fromDtree]
+    cases VTree.fromDtree l <;> cases VTree.fromDtree r <;> rfl
+  rw [e, rightLinearC_leaves]
+  generalize VTree.fromDtree l = a
+  generalize VTree.fromDtree r = b
+  cases a <;> cases b <;> simp [optLeaves, VTree.leaves]
+
+/-- `match`-free form of `fromDtree_leaves` -/
+theorem fromDtree_optLeaves {d : DTree} {anc : List Nat} (hv : d.VarsOk) (hc : d.CutsOk anc) :
+    (optLeaves (VTree.fromDtree d)).Nodup ∧
+      ∀ x, x ∈ optLeaves (VTree.fromDtree d) ↔ (x ∈ d.vars ∧ x ∉ anc) := by
+  induction d generalizing anc with
+  | leaf c cut vs =>
+    have hc' : cut = VarSet.minus vs anc := hc
+    subst hc'
+    have hs : VarSet.Sorted vs := dtree_vars_sorted hv
+    have e : optLeaves (VTree.fromDtree (.leaf c (VarSet.minus vs anc) vs)) =
+        VarSet.minus vs anc := by
+      unfold VTree.fromDtree
+      rw [rightLinearC_leaves]; simp [optLeaves]
+    rw [e]
+    exact ⟨(VarSet.sorted_minus hs).nodup, fun x => VarSet.mem_minus⟩
+  | node l r cut vs ihl ihr =>
+    obtain ⟨hvs, hvl, hvr⟩ := hv
+    obtain ⟨hcut, hcl, hcr⟩ := hc
+    obtain ⟨nl, ml⟩ := ihl hvl hcl
+    obtain ⟨nr, mr⟩ := ihr hvr hcr
+    have hcutmem : ∀ x, x ∈ cut ↔ (x ∈ l.vars ∧ x ∈ r.vars) ∧ x ∉ anc := by
+      intro x; rw [hcut, VarSet.mem_minus, VarSet.mem_inter]
+    have hcutnd : cut.Nodup := by
+      rw [hcut]
+      exact (VarSet.sorted_minus (VarSet.sorted_inter (dtree_vars_sorted hvl))).nodup
+    rw [fromDtree_node_leaves]
+    refine ⟨?_, ?_⟩
+    · rw [List.nodup_append]
+      refine ⟨hcutnd, ?_, ?_⟩
+      · rw [List.nodup_append]
+        refine ⟨nl, nr, ?_⟩
+        intro a ha b hb hab
+        subst hab
+        have h1 := (ml a).1 ha
+        have h2 := (mr a).1 hb
+        have hnotcut : a ∉ cut := fun hx => h1.2 (VarSet.mem_union.2 (Or.inr hx))
+        have hnotanc : a ∉ anc := fun hx => h1.2 (VarSet.mem_union.2 (Or.inl hx))
+        exact hnotcut ((hcutmem a).2 ⟨⟨h1.1, h2.1⟩, hnotanc⟩)
+      · intro a ha b hb hab
+        subst hab
+        have hin : a ∈ VarSet.union anc cut := VarSet.mem_union.2 (Or.inr ha)
+        rcases List.mem_append.1 hb with hb | hb
+        · exact ((ml a).1 hb).2 hin
+        · exact ((mr a).1 hb).2 hin
+    · intro x
+      show _ ↔ x ∈ vs ∧ x ∉ anc
+      rw [hvs, VarSet.mem_union]
+      simp only [List.mem_append, ml, mr, VarSet.mem_union, hcutmem]
+      constructor
+      · rintro (⟨⟨h1, _⟩, h3⟩ | ⟨h1, h2⟩ | ⟨h1, h2⟩)
+        · exact ⟨Or.inl h1, h3⟩
+        · exact ⟨Or.inl h1, fun h => h2 (Or.inl h)⟩
+        · exact ⟨Or.inr h1, fun h => h2 (Or.inl h)⟩
+      · rintro ⟨h1, h2⟩
+        by_cases hx : (x ∈ l.vars ∧ x ∈ r.vars)
+        · exact Or.inl ⟨hx, h2⟩
+        · have hn : ¬ (x ∈ anc ∨ ((x ∈ l.vars ∧ x ∈ r.vars) ∧ x ∉ anc)) := by
+            rintro (h | ⟨h, _⟩)
+            · exact h2 h
+            · exact hx h
+          rcases h1 with h1 | h1
+          · exact Or.inr (Or.inl ⟨h1, hn⟩)
+          · exact Or.inr (Or.inr ⟨h1, hn⟩)
+
+/-- general fact about `fromDtree`: for a dtree with correct vars and cutsets, the derived vtree's
+leaves are exactly `vars \ anc`, each once (and it is `none` only when that set is empty) -/
+theorem fromDtree_leaves {d : DTree} {anc : List Nat} (hv : d.VarsOk) (hc : d.CutsOk anc) :
+    match VTree.fromDtree d with
+    | some t => t.leaves.Nodup ∧ ∀ x, x ∈ t.leaves ↔ (x ∈ d.vars ∧ x ∉ anc)
+    | none => ∀ x, ¬ (x ∈ d.vars ∧ x ∉ anc) := by
+  have h := fromDtree_optLeaves hv hc
+  cases hd : VTree.fromDtree d with
+  | some t => rw [hd] at h; exact h
+  | none =>
+    rw [hd] at h
+    intro x hx
+    have := (h.2 x).2 hx
+    simp [optLeaves] at this
+
+/-- a vtree has at least one leaf -/
+theorem VTree.leaves_ne_nil (t : VTree) : t.leaves ≠ [] := by
+  induction t with
+  | leaf v => simp [VTree.leaves]
+  | node l r ihl _ => simp [VTree.leaves, ihl]
+
+/-- `from_dtree` returns `None` EXACTLY when `vars \ anc` is empty -/
+theorem fromDtree_none_iff {d : DTree} {anc : List Nat} (hv : d.VarsOk) (hc : d.CutsOk anc) :
+    VTree.fromDtree d = none ↔ ∀ x, ¬ (x ∈ d.vars ∧ x ∉ anc) := by
+  have h := fromDtree_optLeaves hv hc
+  cases hd : VTree.fromDtree d with
+  | some t =>
+    rw [hd] at h
+    simp only [reduceCtorEq, false_iff]
+    intro hall
+    cases ht : t.leaves with
+    | nil => exact VTree.leaves_ne_nil t ht
+    | cons a as =>
+      exact hall a ((h.2 a).1 (by simp [optLeaves, ht]))
+  | none =>
+    rw [hd] at h
+    simp only [true_iff]
+    intro x hx
+    have := (h.2 x).2 hx
+    simp [optLeaves] at this
+
+theorem occurs_iff_mem_vars {cs : Spec.Cnf} {ord : List Nat} {d : DTree}
+    (h : DTree.fromCnf cs ord = some d) (x : Nat) : x ∈ d.vars ↔ Occurs x cs := by
+  rw [dtree_vars_mem (dtree_vars h)]
+  unfold Occurs
+  constructor
+  · rintro ⟨c, hc, hx⟩
+    exact ⟨c, (dtree_leaves h).mem_iff.1 hc, hx⟩
+  · rintro ⟨c, hc, hx⟩
+    exact ⟨c, (dtree_leaves h).mem_iff.2 hc, hx⟩
+
+/-- C14 (reading: "every CNF variable" = every variable OCCURRING in a clause): the vtree derived
+from the dtree has every occurring variable as exactly one leaf and no other leaves; `from_dtree`
+returns `None` only when no variable occurs -/
+theorem vtree_of_dtree_leaves {cs : Spec.Cnf} {ord : List Nat} {d : DTree}
+    (h : DTree.fromCnf cs ord = some d) :
+    match VTree.fromDtree d with
+    | some t => t.leaves.Nodup ∧ ∀ x, x ∈ t.leaves ↔ Occurs x cs
+    | none => ∀ x, ¬ Occurs x cs := by
+  have hl := fromDtree_leaves (dtree_vars h) (dtree_cutsets h)
+  have ho := occurs_iff_mem_vars h
+  cases hd : VTree.fromDtree d with
+  | some t =>
+    rw [hd] at hl
+    refine ⟨hl.1, fun x => ?_⟩
+    rw [hl.2 x, ← ho x]
+    simp
+  | none =>
+    rw [hd] at hl
+    intro x hx
+    exact hl x ⟨(ho x).2 hx, by simp⟩
+
+/-- `from_dtree` returns `None` EXACTLY when no variable occurs in the CNF -/
+theorem vtree_of_dtree_none_iff {cs : Spec.Cnf} {ord : List Nat} {d : DTree}
+    (h : DTree.fromCnf cs ord = some d) :
+    VTree.fromDtree d = none ↔ ∀ x, ¬ Occurs x cs := by
+  rw [fromDtree_none_iff (dtree_vars h) (dtree_cutsets h)]
+  have ho := occurs_iff_mem_vars h
+  constructor
+  · intro hall x hx
+    exact hall x ⟨(ho x).2 hx, by simp⟩
+  · intro hall x hx
+    exact hall x ((ho x).1 hx.1)
+
+/-! ## the unrepaired `from_cnf` derives the same vtree when the elimination order covers every
+occurring variable -/
+
+/-- `a` and `b` share no variable satisfying `P` -/
+def DisjOn (P : Nat → Prop) (a b : DTree) : Prop := ∀ x, P x → x ∈ a.vars → x ∈ b.vars → False
+
+theorem DisjOn.symm {P : Nat → Prop} {a b : DTree} (h : DisjOn P a b) : DisjOn P b a :=
+  fun x hp hb ha => h x hp ha hb
+
+theorem pairwise_rel_of_mem {α : Type} {R : α → α → Prop} (hs : ∀ a b, R a b → R b a)
+    {l : List α} (h : l.Pairwise R) {a b : α} (ha : a ∈ l) (hb : b ∈ l) (hab : a ≠ b) :
+    R a b := by
+  induction h with
+  | nil => cases ha
+  | @cons c l hc _ ih =>
+    rcases List.mem_cons.1 ha with ha | ha
+    · rcases List.mem_cons.1 hb with hb | hb
+      · exact absurd (ha.trans hb.symm) hab
+      · rw [ha]; exact hc b hb
+    · rcases List.mem_cons.1 hb with hb | hb
+      · rw [hb]; exact hs _ _ (hc a ha)
+      · exact ih ha hb
+
+/-- the stored `vars` of a tree built by `balanced` come from the forest -/
+theorem Built.vars_sub {ts : List DTree} {d : DTree} (h : Built ts d) {x : Nat}
+    (hx : x ∈ d.vars) : ∃ t ∈ ts, x ∈ t.vars := by
+  cases h with
+  | single t => exact ⟨d, by simp, hx⟩
+  | node _ _ => cases hx
+
+/-- the recomputed `vars` of a tree built by `balanced` come from the forest -/
+theorem Built.initVars_vars_sub {ts : List DTree} {d : DTree} (h : Built ts d)
+    (hts : ∀ t ∈ ts, t.VarsOk) {x : Nat} (hx : x ∈ (DTree.initVars d).vars) :
+    ∃ t ∈ ts, x ∈ t.vars := by
+  induction h with
+  | single t =>
+    rw [initVars_eq_self (hts t (by simp))] at hx
+    exact ⟨t, by simp, hx⟩
+  | @node a b l r _ _ ihl ihr =>
+    have hx' : x ∈ VarSet.union (DTree.initVars l).vars (DTree.initVars r).vars := hx
+    rcases VarSet.mem_union.1 hx' with h | h
+    · obtain ⟨t, ht, hxt⟩ := ihl (fun t ht => hts t (List.mem_append_left _ ht)) h
+      exact ⟨t, List.mem_append_left _ ht, hxt⟩
+    · obtain ⟨t, ht, hxt⟩ := ihr (fun t ht => hts t (List.mem_append_right _ ht)) h
+      exact ⟨t, List.mem_append_right _ ht, hxt⟩
+
+/-- loop invariant of the elimination loop: once `o` has been processed, at most one subtree
+mentions `o` (and it stays that way, because subtrees are only ever merged) -/
+theorem elimStep_disj {P : Nat → Prop} {ts : List DTree} (o : Nat) (hv : ∀ t ∈ ts, t.VarsOk)
+    (h : ts.Pairwise (DisjOn P)) :
+    (DTree.elimStep ts o).Pairwise (DisjOn fun x => P x ∨ x = o) := by
+  have hs : (ts.filter fun d => !d.vars.contains o).Pairwise (DisjOn fun x => P x ∨ x = o) := by
+    refine List.Pairwise.imp_of_mem ?_ (List.Pairwise.filter _ h)
+    intro a b ha _ hab x hp hxa hxb
+    rcases hp with hp | rfl
+    · exact hab x hp hxa hxb
+    · have := (List.mem_filter.1 ha).2
+      simp at this
+      exact this hxa
+  rcases elimStep_cases ts o with ⟨_, h2⟩ | ⟨nt, h1, h2⟩
+  · rw [h2]; exact hs
+  · rw [h2, List.pairwise_append]
+    refine ⟨hs, List.pairwise_singleton _ _, ?_⟩
+    intro a ha b hb x hp hxa hxb
+    have hb' : b = DTree.initVars nt := by simpa using hb
+    subst hb'
+    obtain ⟨t, ht, hxt⟩ := h1.initVars_vars_sub (fun t ht => hv t (List.mem_filter.1 ht).1) hxb
+    have ha' := List.mem_filter.1 ha
+    have ht' := List.mem_filter.1 ht
+    have hao : o ∉ a.vars := by simpa using ha'.2
+    have hto : o ∈ t.vars := by simpa using ht'.2
+    rcases hp with hp | rfl
+    · have hne : a ≠ t := by
+        intro e; subst e; exact hao hto
+      exact pairwise_rel_of_mem (fun _ _ => DisjOn.symm) h ha'.1 ht'.1 hne x hp hxa hxt
+    · exact hao hxa
+
+theorem foldl_elimStep_varsOk {ts : List DTree} (ord : List Nat) (hv : ∀ t ∈ ts, t.VarsOk) :
+    ∀ t ∈ ord.foldl DTree.elimStep ts, t.VarsOk := by
+  induction ord generalizing ts with
+  | nil => exact hv
+  | cons o os ih => exact ih (elimStep_varsOk o hv)
+
+theorem foldl_elimStep_disj {P : Nat → Prop} {ts : List DTree} (ord : List Nat)
+    (hv : ∀ t ∈ ts, t.VarsOk) (h : ts.Pairwise (DisjOn P)) :
+    (ord.foldl DTree.elimStep ts).Pairwise (DisjOn fun x => P x ∨ x ∈ ord) := by
+  induction ord generalizing ts P with
+  | nil =>
+    refine List.Pairwise.imp ?_ h
+    intro a b hab x hp
+    rcases hp with hp | hp
+    · exact hab x hp
+    · cases hp
+  | cons o os ih =>
+    have := ih (elimStep_varsOk o hv) (elimStep_disj o hv h)
+    refine List.Pairwise.imp ?_ this
+    intro a b hab x hp
+    refine hab x ?_
+    rcases hp with hp | hp
+    · exact Or.inl (Or.inl hp)
+    · rcases List.mem_cons.1 hp with rfl | hp
+      · exact Or.inl (Or.inr rfl)
+      · exact Or.inr hp
+
+/-- the subtrees left after the loop share no variable of the elimination order -/
+theorem components_disj_partial (cs : Cnf) (ord : List Nat) :
+    (DTree.components cs ord).Pairwise (DisjOn fun x => x ∈ ord) := by
+  have h0 : ∀ t ∈ cs.map DTree.leafOf, t.VarsOk := by
+    intro t ht
+    obtain ⟨c, _, rfl⟩ := List.mem_map.1 ht
+    exact leafOf_varsOk c
+  have := foldl_elimStep_disj (P := fun _ => False) ord h0
+    (List.pairwise_of_forall (fun _ _ _ hp => hp.elim))
+  refine List.Pairwise.imp ?_ this
+  intro a b hab x hp
+  exact hab x (Or.inr hp)
+
+/-- every variable of a remaining subtree occurs in the CNF -/
+theorem components_vars_occur {cs : Cnf} {ord : List Nat} {t : DTree}
+    (ht : t ∈ DTree.components cs ord) {x : Nat} (hx : x ∈ t.vars) : Occurs x cs := by
+  obtain ⟨c, hc, hl⟩ := (dtree_vars_mem (components_varsOk cs ord t ht) x).1 hx
+  refine ⟨c, (components_leaves cs ord).mem_iff.1 ?_, hl⟩
+  exact List.mem_flatMap.2 ⟨t, ht, hc⟩
+
+/-- if the elimination order covers every occurring variable, the remaining subtrees are
+variable-disjoint -/
+theorem components_disj {cs : Cnf} {ord : List Nat} (hord : ∀ x, Occurs x cs → x ∈ ord) :
+    (DTree.components cs ord).Pairwise (DisjOn fun _ => True) := by
+  refine List.Pairwise.imp_of_mem ?_ (components_disj_partial cs ord)
+  intro a b ha _ hab x _ hxa hxb
+  exact hab x (hord x (components_vars_occur ha hxa)) hxa hxb
+
+theorem fromDtree_node_congr {l r l' r' : DTree} (cut vs vs' : List Nat)
+    (hl : VTree.fromDtree l = VTree.fromDtree l') (hr : VTree.fromDtree r = VTree.fromDtree r') :
+    VTree.fromDtree (.node l r cut vs) = VTree.fromDtree (.node l' r' cut vs') := by
+  simp only [VTree.fromDtree, hl, hr]
+
+theorem inter_eq_nil {a b : List Nat} (h : ∀ x, x ∈ a → x ∈ b → False) : VarSet.inter a b = [] := by
+  unfold VarSet.inter
+  rw [List.filter_eq_nil_iff]
+  intro x hx hc
+  exact h x hx (by simpa using hc)
+
+/-- on a tree built by `balanced` from variable-disjoint subtrees with correct `vars`, the missing
+`init_vars` is invisible to `from_dtree`: all the new nodes get an empty cutset either way -/
+theorem Built.fromDtree_genCutset_eq {ts : List DTree} {d : DTree} (h : Built ts d)
+    (hv : ∀ t ∈ ts, t.VarsOk) (hd : ts.Pairwise (DisjOn fun _ => True)) (anc : List Nat) :
+    VTree.fromDtree (DTree.genCutset anc d) =
+      VTree.fromDtree (DTree.genCutset anc (DTree.initVars d)) := by
+  induction h with
+  | single t => rw [initVars_eq_self (hv t (by simp))]
+  | @node a b l r bl br ihl ihr =>
+    have hd' := List.pairwise_append.1 hd
+    have hva : ∀ t ∈ a, t.VarsOk := fun t ht => hv t (List.mem_append_left _ ht)
+    have hvb : ∀ t ∈ b, t.VarsOk := fun t ht => hv t (List.mem_append_right _ ht)
+    have e1 : VarSet.inter l.vars r.vars = [] := by
+      refine inter_eq_nil fun x hx1 hx2 => ?_
+      obtain ⟨t1, ht1, hx1⟩ := bl.vars_sub hx1
+      obtain ⟨t2, ht2, hx2⟩ := br.vars_sub hx2
+      exact hd'.2.2 t1 ht1 t2 ht2 x trivial hx1 hx2
+    have e2 : VarSet.inter (DTree.initVars l).vars (DTree.initVars r).vars = [] := by
+      refine inter_eq_nil fun x hx1 hx2 => ?_
+      obtain ⟨t1, ht1, hx1⟩ := bl.initVars_vars_sub hva hx1
+      obtain ⟨t2, ht2, hx2⟩ := br.initVars_vars_sub hvb hx2
+      exact hd'.2.2 t1 ht1 t2 ht2 x trivial hx1 hx2
+    have m : VarSet.minus [] anc = [] := rfl
+    simp only [DTree.initVars, DTree.genCutset, e1, e2, m, VarSet.union_nil]
+    exact fromDtree_node_congr _ _ _ (ihl hva hd'.1) (ihr hvb hd'.2.1)
+
+/-- if every occurring variable is in the elimination order, the vtree derived by the unrepaired
+`from_cnf` is the one derived by the repaired `from_cnf` -/
+theorem fromDtree_orig_eq {cs : Cnf} {ord : List Nat} (hord : ∀ x, Occurs x cs → x ∈ ord) :
+    (DTree.fromCnfOrig cs ord).bind VTree.fromDtree =
+      (DTree.fromCnf cs ord).bind VTree.fromDtree := by
+  unfold DTree.fromCnfOrig DTree.fromCnf
+  cases hb : DTree.balanced (DTree.components cs ord) with
+  | none => rfl
+  | some res =>
+    simp only [Option.map_some, Option.bind_some]
+    exact (balanced_some hb).fromDtree_genCutset_eq (components_varsOk cs ord)
+      (components_disj hord) []
+
+/-- … so C14 also holds for the unrepaired `from_cnf` under that hypothesis -/
+theorem vtree_of_dtree_leaves_orig {cs : Spec.Cnf} {ord : List Nat} {d : DTree}
+    (hord : ∀ x, Occurs x cs → x ∈ ord) (h : DTree.fromCnfOrig cs ord = some d) :
+    match VTree.fromDtree d with
+    | some t => t.leaves.Nodup ∧ ∀ x, x ∈ t.leaves ↔ Occurs x cs
+    | none => ∀ x, ¬ Occurs x cs := by
+  have hne : cs ≠ [] := by
+    rintro rfl
+    rw [fromCnfOrig_none] at h
+    cases h
+  cases h' : DTree.fromCnf cs ord with
+  | none =>
+    have := fromCnf_isSome hne ord
+    rw [h'] at this
+    cases this
+  | some d' =>
+    have e := fromDtree_orig_eq hord
+    rw [h, h'] at e
+    simp only [Option.bind_some] at e
+    rw [e]
+    exact vtree_of_dtree_leaves h'
+
+/-! ## non-vacuity -/
+
+section Examples
+
+/-- (x0 ∨ ¬x1) ∧ (x1 ∨ x2) ∧ (¬x2 ∨ x3) -/
+def exCnf : Cnf := [[⟨0, true⟩, ⟨1, false⟩], [⟨1, true⟩, ⟨2, true⟩], [⟨2, false⟩, ⟨3, true⟩]]
+
+example : DTree.fromCnf exCnf [0, 1, 2, 3] = some
+    (.node
+      (.leaf [⟨2, false⟩, ⟨3, true⟩] [3] [2, 3])
+      (.node
+        (.leaf [⟨1, true⟩, ⟨2, true⟩] [] [1, 2])
+        (.leaf [⟨0, true⟩, ⟨1, false⟩] [0] [0, 1])
+        [1] [0, 1, 2])
+      [2] [0, 1, 2, 3]) := by decide
+
+/-- pre-order `(is_leaf, vars, cutset)` -/
+example : (DTree.fromCnf exCnf [0, 1, 2, 3]).map DTree.preorder = some
+    [(false, [0, 1, 2, 3], [2]), (true, [2, 3], [3]), (false, [0, 1, 2], [1]),
+      (true, [1, 2], []), (true, [0, 1], [0])] := by decide
+
+example : (DTree.fromCnf exCnf [0, 1, 2, 3]).bind VTree.fromDtree = some
+    (.node (.leaf 2) (.node (.leaf 3) (.node (.leaf 1) (.leaf 0)))) := by decide
+
+example : ((DTree.fromCnf exCnf [0, 1, 2, 3]).bind VTree.fromDtree).map VTree.leaves =
+    some [2, 3, 1, 0] := by decide
+
+/-- here the unrepaired code agrees (the order covers all variables) -/
+example : DTree.fromCnfOrig exCnf [0, 1, 2, 3] = DTree.fromCnf exCnf [0, 1, 2, 3] := by decide
+
+/-- the hypothesis of `fromDtree_orig_eq` is needed: with the EMPTY elimination order the unrepaired
+code derives a vtree in which variable 1 is a leaf twice, the repaired code does not -/
+example : ((DTree.fromCnfOrig exCnf []).bind VTree.fromDtree).map VTree.leaves =
+    some [0, 1, 2, 1, 3] := by decide
+example : ((DTree.fromCnf exCnf []).bind VTree.fromDtree).map VTree.leaves =
+    some [1, 0, 2, 3] := by decide
+
+/-- the `none` branch of C14 is inhabited: clauses without literals -/
+example : (DTree.fromCnf [[], []] [0]).isSome ∧
+    (DTree.fromCnf [[], []] [0]).bind VTree.fromDtree = none := by decide
+
+/-- the defect instance: the root's `vars` stay empty -/
+example : (DTree.fromCnfOrig [[⟨1, true⟩], [⟨2, false⟩]] [2, 0, 1]).map DTree.vars = some [] := by
+  decide
+example : (DTree.fromCnf [[⟨1, true⟩], [⟨2, false⟩]] [2, 0, 1]).map DTree.vars = some [1, 2] := by
+  decide
+
+example : Occurs 3 exCnf := ⟨[⟨2, false⟩, ⟨3, true⟩], by simp [exCnf], ⟨3, true⟩, by simp, rfl⟩
+
+end Examples
+
+#print axioms VarSet.mem_insert
+#print axioms VarSet.sorted_insert
+#print axioms VarSet.mem_union
+#print axioms VarSet.sorted_union
+#print axioms VarSet.mem_inter
+#print axioms VarSet.mem_minus
+#print axioms mem_clauseVars
+#print axioms fromCnf_isSome
+#print axioms fromCnf_none
+#print axioms dtree_leaves
+#print axioms dtree_leaves_orig
+#print axioms dtree_vars
+#print axioms dtree_vars_mem
+#print axioms dtree_vars_sorted
+#print axioms dtree_cutsets
+#print axioms dtree_cutsets_orig
+#print axioms dtree_vars_orig_wrong
+#print axioms fromDtree_leaves
+#print axioms fromDtree_none_iff
+#print axioms vtree_of_dtree_leaves
+#print axioms vtree_of_dtree_none_iff
+#print axioms fromDtree_orig_eq
+#print axioms vtree_of_dtree_leaves_orig
+
 end VT
